@@ -558,3 +558,123 @@ func (e *effEngine) RunLocks(r *Report) {
 		}
 	}
 }
+
+// ---------------------------------------------------------------------------
+// EFF-DCL: no check-then-act on mutex-guarded fields (double-checked locking).
+// For a method whose receiver struct has a sync.Mutex / RWMutex field: fields of the receiver stored while the
+// mutex is held are guarded; a branch whose condition reads a guarded field outside the locked region and that
+// dominates the Lock call is a racy pre-check (another worker can observe the field between append and store).
+
+func mutexFieldOf(v ssa.Value) (recv ssa.Value, field string, ok bool) {
+	fa, isFA := v.(*ssa.FieldAddr)
+	if !isFA {
+		return nil, "", false
+	}
+	ft := deref(fa.Type())
+	n, isN := ft.(*types.Named)
+	if !isN || n.Obj().Pkg() == nil || n.Obj().Pkg().Path() != "sync" || (n.Obj().Name() != "Mutex" && n.Obj().Name() != "RWMutex") {
+		return nil, "", false
+	}
+	return fa.X, fieldName(fa.X.Type(), fa.Field), true
+}
+
+func RunDoubleChecked(p *Prog, r *Report, scope func(pkg string) bool) {
+	n := 0
+	for _, fn := range p.Funcs {
+		pk := FuncPkg(fn)
+		if pk == nil || !scope(pk.Path()) {
+			continue
+		}
+		// lock / unlock calls on a mutex field of some object
+		type lk struct {
+			call *ssa.Call
+			recv ssa.Value
+		}
+		var locks, unlocks []lk
+		for _, b := range fn.Blocks {
+			for _, ins := range b.Instrs {
+				c, ok := ins.(*ssa.Call)
+				if !ok || len(c.Call.Args) == 0 {
+					continue
+				}
+				cal := c.Call.StaticCallee()
+				if cal == nil {
+					continue
+				}
+				recv, _, ok := mutexFieldOf(c.Call.Args[0])
+				if !ok {
+					continue
+				}
+				switch cal.Name() {
+				case "Lock", "RLock":
+					locks = append(locks, lk{c, recv})
+				case "Unlock", "RUnlock":
+					unlocks = append(unlocks, lk{c, recv})
+				}
+			}
+		}
+		if len(locks) == 0 {
+			continue
+		}
+		for _, l := range locks {
+			n++
+			// locked region: blocks reachable from the lock call without passing an unlock of the same object
+			unlockBlk := map[*ssa.BasicBlock]bool{}
+			for _, u := range unlocks {
+				if u.recv == l.recv || Desc(u.recv) == Desc(l.recv) {
+					unlockBlk[u.call.Block()] = true
+				}
+			}
+			region := reach(l.call.Block(), func(from, to *ssa.BasicBlock) bool { return unlockBlk[from] && from != l.call.Block() })
+			// guarded fields: fields of the same object stored in the region
+			guarded := map[string]bool{}
+			for b := range region {
+				for _, ins := range b.Instrs {
+					if st, ok := ins.(*ssa.Store); ok {
+						for v, d := st.Addr, 0; v != nil && d < 6; d++ {
+							if fa, ok := v.(*ssa.FieldAddr); ok && (fa.X == l.recv || Desc(fa.X) == Desc(l.recv)) {
+								guarded[fieldName(fa.X.Type(), fa.Field)] = true
+								break
+							} else if ia, ok := v.(*ssa.IndexAddr); ok {
+								v = ia.X
+							} else if u, ok := v.(*ssa.UnOp); ok {
+								v = u.X
+							} else {
+								break
+							}
+						}
+					}
+				}
+			}
+			bad := ""
+			for d := l.call.Block().Idom(); d != nil; d = d.Idom() {
+				iff, ok := lastInstr(d).(*ssa.If)
+				if !ok {
+					continue
+				}
+				s := newSlicer()
+				s.noObj = true
+				s.visit(iff.Cond)
+				all := map[ssa.Value]bool{}
+				for v := range s.seen {
+					all[v] = true
+				}
+				for v := range s.seenA {
+					all[v] = true
+				}
+				for v := range all {
+					if fa, ok := v.(*ssa.FieldAddr); ok && (fa.X == l.recv || Desc(fa.X) == Desc(l.recv)) && guarded[fieldName(fa.X.Type(), fa.Field)] {
+						bad = fmt.Sprintf("condition at %s reads guarded field %s before the lock is taken", p.Pos(iff.Cond.Pos()), fieldName(fa.X.Type(), fa.Field))
+					}
+				}
+			}
+			key := fmt.Sprintf("lock:%s", normIdx(Desc(l.call.Call.Args[0])))
+			if bad == "" {
+				r.Pass("EFF-DCL", pk.Path(), FuncName(fn), key, p.Pos(l.call.Pos()), "no unlocked pre-check of the fields written under this lock", len(guarded) > 0)
+			} else {
+				r.Fail("EFF-DCL", pk.Path(), FuncName(fn), key, p.Pos(l.call.Pos()), "double-checked locking: "+bad+"; a parallel worker can take the unlocked path while the field is being updated")
+			}
+		}
+	}
+	r.Extra["lock_sites_checked"] = n
+}
